@@ -24,7 +24,7 @@ use std::time::{Duration, Instant};
 const NCLIENTS: usize = 4;
 const KEYS: [&str; 3] = ["bl:a", "bl:b", "bl:c"];
 /// a reply that is due must arrive within this
-const PROMPT: Duration = Duration::from_secs(4);
+const PROMPT: Duration = Duration::from_secs(8);
 /// a deadline nearer than this is waited out before the next operation
 const MARGIN: Duration = Duration::from_millis(150);
 
@@ -109,6 +109,8 @@ struct Sim {
     trace: Vec<Value>,
     pushed: u64,
     delivered: u64,
+    /// for a client the model has just served: Some(None) = it waited for ever, Some(Some(d)) = its deadline
+    last_deadline: Vec<Option<Option<Instant>>>,
 }
 
 type Fail = (String, String);
@@ -141,6 +143,7 @@ impl Sim {
         while !self.lists[key].is_empty() {
             let Some(c) = self.queues[key].pop_front() else { break };
             let right = self.blocked[c].as_ref().map_or(false, |b| b.right);
+            self.last_deadline[c] = self.blocked[c].as_ref().map(|b| b.timeout.map(|t| b.t_send + t));
             let e = if right { self.lists[key].pop_back() } else { self.lists[key].pop_front() }.unwrap();
             self.unblock(c);
             out.push((c, key, e));
@@ -159,9 +162,18 @@ impl Sim {
                     self.delivered += 1;
                     self.labels.insert("served-by-later-push");
                 }
-                Reply::Frame(f) if f.is_nil() => {
-                    return fail("inconclusive-timing", format!("client {} timed out around the moment the push arrived", c));
-                }
+                Reply::Frame(f) if f.is_nil() => match self.last_deadline[c] {
+                    // nil is an answer only once the client's own deadline has passed
+                    Some(Some(d)) if Instant::now() + Duration::from_millis(2) >= d => {
+                        return fail("inconclusive-timing", format!("client {} timed out around the moment the push arrived", c));
+                    }
+                    Some(Some(d)) => {
+                        return fail("timeout-too-early", format!("after {}: client {} (first in line on {}) received nil {:?} before its deadline instead of [{}, {}]", after, c, KEYS[key], d.saturating_duration_since(Instant::now()), KEYS[key], crate::resp::show_bytes(&e)));
+                    }
+                    _ => {
+                        return fail("nil-for-infinite-timeout", format!("after {}: client {} asked to wait forever and is first in line on {}, but received nil instead of [{}, {}]", after, c, KEYS[key], KEYS[key], crate::resp::show_bytes(&e)));
+                    }
+                },
                 Reply::Timeout => {
                     return fail(
                         "blocked-client-not-served",
@@ -281,7 +293,7 @@ fn run_history(server: &mut Server, ops: &[Op]) -> CaseResult {
             Err(e) => return CaseResult::infra(e.to_string()),
         }
     }
-    let mut s = Sim { clients, ctl, lists: Default::default(), queues: Default::default(), blocked: (0..NCLIENTS).map(|_| None).collect(), next_elem: 0, labels: BTreeSet::new(), trace: Vec::new(), pushed: 0, delivered: 0 };
+    let mut s = Sim { clients, ctl, lists: Default::default(), queues: Default::default(), blocked: (0..NCLIENTS).map(|_| None).collect(), next_elem: 0, labels: BTreeSet::new(), trace: Vec::new(), pushed: 0, delivered: 0, last_deadline: vec![None; NCLIENTS] };
     let mut ever_blocked = false;
     let r = (|| -> Result<(), Fail> {
         for (i, o) in ops.iter().enumerate() {
@@ -754,7 +766,7 @@ pub fn run(tier: Tier, seed: u64, replay: Option<Value>) -> i32 {
         tier,
         seed,
         "exploration",
-        "A: generated histories (3..25 operations) of four clients over three lists: BLPOP/BRPOP on 1-3 keys with timeout forever/0.06/0.2/0.4/1 s, LPUSH/RPUSH of 1, 2 or 4 unique elements sent directly, inside MULTI/EXEC or from a script, LPOP/RPOP, a pipelined RPUSH+LPOP batch, pushes to two different keys pipelined in one write, waits, stalls of the single-threaded server (so that several deadlines are met by one timeout sweep), and disconnects of blocked clients; operations are sequenced (two PING round trips on a control connection after each), finite deadlines nearer than 150 ms are waited out before the next operation, so a reference model of Redis' blocking semantics decides every reply: served first-blocked-first with the head (BLPOP) or tail (BRPOP) of the first non-empty key, within 4 s; nil never before the timeout on the harness clock and within 4 s after it; never nil for an infinite wait; nothing for a client to whom nothing is due; LRANGE of every list equals pushed minus delivered after every step; wind-down: all waiters are served by pushes, later pushes stay in their lists, every client answers PING, a later BLPOP runs its full timeout. B: unsequenced bursts (3 pushers, 5 blocking poppers, one of which disconnects while blocked) with the schedule-independent oracle only: no element delivered twice or invented, at most one element unaccounted for per disconnect. Non-trivial (A) = a client actually blocked and was served by a later push, timed out, registered on several keys, shared a multi-element push with another waiter, or disconnected while blocked; distinct by hash of the history",
+        "A: generated histories (3..25 operations) of four clients over three lists: BLPOP/BRPOP on 1-3 keys with timeout forever/0.06/0.2/0.4/1 s, LPUSH/RPUSH of 1, 2 or 4 unique elements sent directly, inside MULTI/EXEC or from a script, LPOP/RPOP, a pipelined RPUSH+LPOP batch, pushes to two different keys pipelined in one write, waits, stalls of the single-threaded server (so that several deadlines are met by one timeout sweep), and disconnects of blocked clients; operations are sequenced (two PING round trips on a control connection after each), finite deadlines nearer than 150 ms are waited out before the next operation, so a reference model of Redis' blocking semantics decides every reply: served first-blocked-first with the head (BLPOP) or tail (BRPOP) of the first non-empty key, within 8 s; nil never before the timeout on the harness clock and within 8 s after it; never nil for an infinite wait; nothing for a client to whom nothing is due; LRANGE of every list equals pushed minus delivered after every step; wind-down: all waiters are served by pushes, later pushes stay in their lists, every client answers PING, a later BLPOP runs its full timeout. B: unsequenced bursts (3 pushers, 5 blocking poppers, one of which disconnects while blocked) with the schedule-independent oracle only: no element delivered twice or invented, at most one element unaccounted for per disconnect. Non-trivial (A) = a client actually blocked and was served by a later push, timed out, registered on several keys, shared a multi-element push with another waiter, or disconnected while blocked; distinct by hash of the history",
     ));
     let mk = |_: usize| Server::start(ServerOpts::default());
     if let Some(r) = replay {
